@@ -11,6 +11,7 @@ import (
 	"path/filepath"
 	"runtime"
 	"runtime/debug"
+	"strings"
 
 	"github.com/gabriel-vasile/mimetype"
 
@@ -343,6 +344,46 @@ func c01Run(c *fw.Ctx, b fw.Batch) {
 				}
 			}
 		}
+	case "big-inputs":
+		// single tokens of more than 1 MiB (comment, script body, text run, attribute value, JSON
+		// string, CSV cell, one text line) examined in full: must return (the stall watchdog
+		// turns a call that does not return into a violation) and must not panic
+		big := func(unit string, n int) string { return strings.Repeat(unit, n/len(unit)+1) }
+		docs := []string{
+			"<html><head><!-- " + big("long comment ", 1500000) + "--><meta charset=\"koi8-r\"></head>",
+			"<html><head><script>" + big("var x = 1; ", 1500000) + "</script><meta charset=\"koi8-r\">",
+			"<html><body>" + big("text run without any tag ", 2500000) + "<meta charset=x>",
+			"<html><body><a href=\"data:" + big("QUJD", 1300000) + "\">x</a><meta charset=x>",
+			"<?xml version=\"1.0\"?><a b=\"" + big("v", 1300000) + "\"/>",
+			"[\"" + big("s", 2100000) + "\"]",
+			"a,b\n\"" + big("c", 2100000) + "\",d\n",
+			big("one line of text without a newline ", 2100000),
+			"<svg xmlns=\"http://www.w3.org/2000/svg\"><!-- " + big("c ", 1200000) + "--></svg>",
+			"{\"k\":" + big("1", 1200000) + "}",
+			"BEGIN:VCARD\nNOTE:" + big("n", 1200000) + "\nEND:VCARD\n",
+		}
+		for di, d := range docs {
+			data := []byte(d)
+			for _, lim := range []uint32{0, 1 << 22, uint32(len(data) - 1)} {
+				key := fw.InputKey(data[:200], lim, fmt.Sprintf("Detect/big-input-%d", di))
+				mk := func() any {
+					return c01Case{Kind: fmt.Sprintf("big-input-%d", di), In: append([]byte(nil), data[:200]...), Entry: "big-inputs", InQ: fw.Quote(data, 100)}
+				}
+				c.Trace(func() (string, any) { return key, mk() })
+				c.Guard(key, mk, func() {
+					mimetype.SetLimit(lim)
+					if mimetype.Detect(data) == nil {
+						panic("nil result from Detect")
+					}
+					if m, _ := mimetype.DetectReader(&c01ChunkReader{b: data, r: r, mode: 4}); m == nil {
+						panic("nil result from DetectReader")
+					}
+				})
+				c.Eval(2)
+				c.Count("inputs_with_a_token_of_more_than_1_MiB", 1)
+			}
+		}
+		mimetype.SetLimit(3072)
 	case "huge-limit-reader":
 		// DetectReader / DetectFile with the largest limits (the reader path sizes a buffer
 		// from the limit: 2^32-1 must not wrap around). One call at a time; untouched pages
@@ -487,6 +528,7 @@ func init() {
 			bm[0].Env = []string{"GOMAXPROCS=1", "GOGC=off"}
 			bs = append(bs, bm...)
 			bs = append(bs, batches("huge-limit-reader", 1, 0, 900)...)
+			bs = append(bs, batches("big-inputs", 1, 0, 900)...)
 			cl := batches("concurrent-limit", 4, 6, 900)
 			if tier == "thorough" {
 				cl = batches("concurrent-limit", 8, 120, 3000)
@@ -514,6 +556,8 @@ func init() {
 				c01Run(c, fw.Batch{Kind: "bombs"})
 			case "huge-limit-reader":
 				c01Run(c, fw.Batch{Kind: "huge-limit-reader"})
+			case "big-inputs":
+				c01Run(c, fw.Batch{Kind: "big-inputs"})
 			case "concurrent-limit":
 				fmt.Println("schedules are not deterministic: the concurrent-limit workload is re-run")
 				c01Run(c, fw.Batch{Kind: "concurrent-limit", N: 40})
